@@ -31,6 +31,9 @@ def cases(ctx):
         P = gen.ambiguous_stack_pda(rng) if i % 25 == 4 else gen.random_pda(rng, markers=True)
         if not thorough or ctx.mine(i):
             yield {'P': P, 'cfg': False}
+    for i in range(6 if not thorough else 40):
+        P, w = word_chain_pda(rng)
+        yield {'P': P, 'cfg': True, 'probe': [w, w[:-1], w + 'a']}
     for i in range(60 if not thorough else 600):
         P = gen.random_pda(rng, nmax=2, tmax=3)
         if i % 3 == 2:       # state names with '_' (names of grammar variables are built from pairs of state names)
@@ -39,6 +42,20 @@ def cases(ctx):
                      delta=[[ren[p], a, u, [[ren[q], v] for q, v in T]] for p, a, u, T in P['delta']])
         if not thorough or ctx.mine(i):
             yield {'P': P, 'cfg': True}
+
+
+def word_chain_pda(rng):
+    """reads one fixed word of length 4-6 through a chain of states without touching the stack (optionally inside one push / pop pair):
+    the grammar of pda_to_cfg has to compose many stack-neutral segments"""
+    w = ''.join(rng.choice('ab') for _ in range(rng.randint(4, 6)))
+    Q = ['s%d' % i for i in range(len(w) + 1)]
+    eps = rng.choice(['_', 'ε'])
+    delta = [[Q[i], w[i], eps, [[Q[i + 1], eps]]] for i in range(len(w))]
+    if rng.random() < 0.4:
+        delta[0] = [Q[0], w[0], eps, [[Q[1], 'x']]]
+        delta[-1] = [Q[-2], w[-1], 'x', [[Q[-1], eps]]]
+    rng.shuffle(delta)
+    return {'Q': Q, 'Sigma': ['a', 'b'], 'Gamma': ['x'], 'delta': delta, 'q0': Q[0], 'F': [Q[-1]], 'eps': eps, 'dd': True}, w
 
 
 def lean_requests(c):
@@ -145,9 +162,9 @@ def judge(ctx, c, answers):
             G = got['ok']
             rules = [(str(r.variable), [('v' if isinstance(x, Variable) else 't', str(x)) for x in r.alternative.symbols]) for r in G.R]
             m = 2
-            words = gen.all_words(P.Sigma, m)
+            words = gen.all_words(P.Sigma, m) + list(c.get('probe', []))
             LG = {w for w in words if oracles.cfg_accepts(rules, str(G.S), w)}
-            LP = {w for w in ref if len(w) <= m}
+            LP = {w for w in ref if len(w) <= m} | {w for w in c.get('probe', []) if oracles.pda_accepts(P, w)}
             bad = LG != LP
             apo = any("'" in q for q in c['P']['Q'])       # the variable naming scheme p'q is ambiguous for such names (recorded finding)
             if bad:
